@@ -269,4 +269,24 @@ theorem hash_collision_can_be_computed :
     collisionX ≠ collisionY ∧ nameHash [⟨8, collisionX⟩] = nameHash [⟨8, collisionY⟩] ∧
     compHash ⟨8, collisionX⟩ = compHash ⟨8, collisionY⟩ := by decide
 
+/-! ## 9. the prefix relation as the tables use it -/
+
+/-- a pending Interest (name, CanBePrefix) is matched by a token-less Data name exactly when the Data name is the
+    Interest name, or extends it and the Interest allowed that -/
+theorem data_matches_iff (n : Name) (cbp : Bool) (d : Name) :
+    dataMatches (n, cbp) d = true ↔ ∃ sfx, d = n ++ sfx ∧ (sfx = [] ∨ cbp = true) := by
+  unfold dataMatches
+  simp only [Bool.or_eq_true, decide_eq_true_eq, Bool.and_eq_true]
+  constructor
+  · rintro (h | ⟨hc, hp⟩)
+    · exact ⟨[], by simp [h], Or.inl rfl⟩
+    · obtain ⟨sfx, hs⟩ := isPrefix_iff.mp hp
+      exact ⟨sfx, hs, Or.inr hc⟩
+  · rintro ⟨sfx, hd, h | h⟩
+    · left; subst h; simpa using hd.symm
+    · right; exact ⟨h, isPrefix_iff.mpr ⟨sfx, hd⟩⟩
+
+example : pitNameMatch [([⟨8, [97]⟩], true), ([⟨8, [97]⟩, ⟨8, [98]⟩], false), ([⟨8, [97]⟩], true)] [⟨8, [97]⟩, ⟨8, [98]⟩] = [0, 1] := by decide
+example : memNewest [([⟨8, [97]⟩, ⟨54, [1]⟩], 1), ([⟨8, [97]⟩, ⟨54, [1]⟩, ⟨50, [0]⟩], 9), ([⟨8, [97]⟩, ⟨54, [5]⟩], 5)] [⟨8, [97]⟩] = some 1 := by decide
+
 end Ndn.C14
